@@ -1,4 +1,5 @@
 import CifModel.Lemmas.ParserTop
+import CifModel.Lemmas.ParserStructure
 /-
   Props/C01parse — the integrated layer of property C01 (well-formed CIF parses to exactly the content it denotes): theorems
   about value construction in `Model.Parser` and kernel-evaluated instances of the whole parser on rendered documents.
@@ -6,7 +7,7 @@ import CifModel.Lemmas.ParserTop
   Props/C01.lean of the scanner group.)
 -/
 namespace CifModel
-open CifModel.Model CifModel.Model.Lexer CifModel.Model.Parser
+open CifModel.Model CifModel.Model.Lexer CifModel.Model.Parser CifModel.Spec.Grammar
 
 /-- what `u_strncpy` leaves of a token text without NUL units: the text itself -/
 theorem C01_cstr_id (t : Str) (h : ∀ c ∈ t, c ≠ 0) : cstr t = t := by
@@ -72,6 +73,55 @@ theorem C01_error_free_policy_independent (o : Opts) (pol : Policy) (pre : Cif) 
     | some x => _ at hs
   rw [h] at hs
   simpa [firstNZ] using hs
+
+/-! ### C01_structure: the productions build the denotation -/
+
+/-- a well-formed abstract document (Spec/Grammar.lean) under the option record `o`: valid and pairwise distinct (normalised)
+    block codes, frame codes per block, data names per container; loops with at least one name and one packet, packets as
+    long as the header; every string value admissible in its presentation (`wfVal`); table keys without disallowed characters;
+    no NUL.  Decidable. -/
+def C01_wfDoc (o : Opts) (d : Doc) : Bool := wfBlocks o d []
+
+/-- **C01_structure** — over the token sequence of ANY well-formed document (blocks, one level of save frames, scalar items, loops,
+    lists and tables nested to any depth, every presentation of every string incl. folded / prefixed text fields through
+    `Val.enc`), whatever the callback policy: the productions report nothing (the log is unchanged), return CIF_OK and leave
+    in the target exactly the content the document denotes.  The scanner enters through `Feeds` only: "from state `s` it
+    hands out the tokens of `d`, silently". -/
+theorem C01_structure (o : Opts) (d : Doc) (s : PS) (fuel : Nat) (pol : Policy) (w : W)
+    (hstore : o.store = true) (hmfd : o.maxFrameDepth ≠ 0) (hempty : w.cif = []) (hwf : C01_wfDoc o d = true)
+    (hfuel : szBlocks d + d.length + 1 ≤ fuel) (hF : Feeds o s (tokensOf d)) :
+    parseCif o fuel s pol w = .ok () { w with cif := denote o.dia o.normKey d } := by
+  obtain ⟨f, rfl⟩ : ∃ f, fuel = f + d.length := ⟨fuel - d.length, by omega⟩
+  obtain ⟨s', h⟩ := blocks_structure o hstore hmfd d [] s f pol w hwf (by rw [hempty]; intro c hc; cases hc) (by omega) hF
+  unfold parseCif
+  simp only [clamp, Parser.bind_eq, Parser.pure_eq, P.bind, P.pure, h, hempty, List.nil_append]
+
+/-- **C01_parse_render (partial: the lexical glue is a hypothesis)** — for a whole parse: if the characters `units` make the scanner
+    deliver the tokens of the well-formed document `d` (hypothesis `hlex`; for `units = render d layout` this is the composition of
+    the lexical theorems C01_lex_value / C01_lex_sep / C01_lex_name / C01_lex_keyword / C01_lex_bracket of Props/C01.lean, not
+    carried out here), then under EVERY policy the parse returns CIF_OK, reports nothing and yields `denote d`. -/
+theorem C01_parse_render_partial (o : Opts) (d : Doc) (c : CU) (rest : Str) (pol : Policy)
+    (hstore : o.store = true) (hmfd : o.maxFrameDepth ≠ 0) (hutf : o.notUtf8 = false) (hwf : C01_wfDoc o d = true)
+    (hfirst : disallowedInitial c = false) (hbom : (c == 0xFEFF) = false)
+    (hfuel : szBlocks d + d.length + 1 ≤ fuelFor (c :: rest))
+    (hlex : Feeds o { scan := Scan.init (c :: rest), tok := none } (tokensOf d)) :
+    parse o pol [] (c :: rest) = { rc := 0, log := [], cif := denote o.dia o.normKey d } := by
+  have h := C01_structure o d _ (fuelFor (c :: rest)) pol { log := [], cif := [] } hstore hmfd rfl hwf hfuel hlex
+  unfold parse run parseInternal afterFirst
+  simp only [hfirst, hbom, hutf, Bool.false_eq_true, if_false, false_and, Parser.bind_eq, Parser.pure_eq, P.bind, P.pure]
+  cases hd : o.dia <;> simp [hd, P.bind, P.pure, h]
+
+/-- **C01_layout_independent** — two character sequences that present the same well-formed document (two layouts, two choices of
+    presentation with the same tokens) parse to the same outcome, under any two policies -/
+theorem C01_layout_independent (o : Opts) (d : Doc) (c₁ c₂ : CU) (r₁ r₂ : Str) (pol₁ pol₂ : Policy)
+    (hstore : o.store = true) (hmfd : o.maxFrameDepth ≠ 0) (hutf : o.notUtf8 = false) (hwf : C01_wfDoc o d = true)
+    (hf₁ : disallowedInitial c₁ = false) (hb₁ : (c₁ == 0xFEFF) = false) (hf₂ : disallowedInitial c₂ = false) (hb₂ : (c₂ == 0xFEFF) = false)
+    (hfu₁ : szBlocks d + d.length + 1 ≤ fuelFor (c₁ :: r₁)) (hfu₂ : szBlocks d + d.length + 1 ≤ fuelFor (c₂ :: r₂))
+    (hl₁ : Feeds o { scan := Scan.init (c₁ :: r₁), tok := none } (tokensOf d))
+    (hl₂ : Feeds o { scan := Scan.init (c₂ :: r₂), tok := none } (tokensOf d)) :
+    parse o pol₁ [] (c₁ :: r₁) = parse o pol₂ [] (c₂ :: r₂) := by
+  rw [C01_parse_render_partial o d c₁ r₁ pol₁ hstore hmfd hutf hwf hf₁ hb₁ hfu₁ hl₁,
+    C01_parse_render_partial o d c₂ r₂ pol₂ hstore hmfd hutf hwf hf₂ hb₂ hfu₂ hl₂]
 
 /-! ### the full statements (not proved: they need the structure-level induction over documents) -/
 
